@@ -97,6 +97,8 @@ func c03(w *core.World, r *core.Report) {
 	ruleChunksSameWorker(w, r)
 	r.Rule("R03.12", "the database an entry is replayed into: tracked database starts unknown/fresh, changes only with selectDB's result, and every change is sent to the target before the next entry (shared with R01.6)", 4)
 	ruleDbTracking(w, r)
+	r.Rule("R20.12", "every chunk of a split value is known as such, the last one included: a final chunk taken for a whole value is sent as a RESTORE payload and replaces what the earlier chunks built (shared with C20)", 1)
+	ruleSplitKnownFromFirstChunk(w, r)
 }
 
 func ruleTypeTables(w *core.World, r *core.Report) {
